@@ -107,6 +107,13 @@ Theorem C20_escaped_braces_literal :
 Proof. exact escaped_open_no_placeholder. Qed.
 Print Assumptions C20_escaped_braces_literal.
 
+(* in particular: ANY text written with each of its braces escaped comes out as that very text,
+   for every request — nothing inside it is treated as a placeholder *)
+Theorem C20_escaped_text_is_literal :
+  forall (gs : bytes -> bytes) (w : bytes), expand gs (esc w) = Ok w.
+Proof. exact escaped_text_literal. Qed.
+Print Assumptions C20_escaped_text_is_literal.
+
 Example C20_escaped_braces_literal_nonvacuous :
   expand (fun _ => bs "VALUE") (bs "a \{status\} b") = Ok (bs "a {status} b").
 Proof. vm_compute. reflexivity. Qed.
